@@ -200,29 +200,31 @@ Proof.
   destruct (build_fold_inv _ _ _ _ H3 I1) as (_ & _ & A & C & U). repeat split; assumption.
 Qed.
 
-(* variants: the announced count is the number of entries present (no truncated section); a
-   definition with an invalid variant yields no bytes; a valid variant is the control array
-   with the named parameter's first len(values) slots replaced *)
+(* variants: the announced count is the number of entries present (no truncated section);
+   what is written is the longest prefix of valid variants (an invalid one -- unknown control,
+   full name longer than 32, more values than the control has slots -- stops the writing, with
+   a warning); a valid variant is the control array with the named parameter's first
+   len(values) slots replaced *)
 Theorem variants_layout : forall dn st vs,
   let r := Controls.variants_layout fixed dn st vs in
-  v_count r = length (v_written r) /\
-  (v_raised r = false -> v_count r = length vs /\
-     Forall2 (fun v w => variant_one dn st v = Some w) vs (v_written r)) /\
-  (v_raised r = true -> v_written r = [] /\ exists v, In v vs /\ variant_one dn st v = None) /\
+  v_count r = length (v_written r) /\ v_raised r = false /\
+  Forall2 (fun v w => variant_one dn st v = Some w) (firstn (length (v_written r)) vs) (v_written r) /\
+  ((forall v, In v vs -> variant_one dn st v <> None) -> v_count r = length vs) /\
+  (length (v_written r) < length vs ->
+     exists v, nth_error vs (length (v_written r)) = Some v /\ variant_one dn st v = None) /\
   (forall arr i vals, i + length vals <= length arr ->
      length (set_range arr i vals) = length arr /\
      firstn (length vals) (skipn i (set_range arr i vals)) = vals /\
      forall k d, k < i \/ i + length vals <= k -> nth k (set_range arr i vals) d = nth k arr d).
 Proof.
-  intros dn st vs r. destruct (variants_count_fixed dn st vs) as (H1 & H2 & H3). fold r in H1, H2, H3.
-  split; [assumption|]. split; [|split].
-  - intro Hr. destruct (H2 Hr) as (Hc & Hl). split; [assumption|]. apply variants_loop_each. assumption.
-  - intro Hr. destruct (H3 Hr) as (Hw & ws & Hl). split; [assumption|].
-    clear - Hl. revert ws Hl. induction vs as [|v vs IH]; intros ws Hl; simpl in Hl; [discriminate|].
-    destruct (variant_one dn st v) eqn:V.
-    + destruct (variants_loop dn st vs) as [ws' ok] eqn:L. injection Hl as <- ->.
-      destruct (IH ws' eq_refl) as (v' & Hin & Hv). exists v'. split; [right; assumption|assumption].
-    + exists v. split; [left; reflexivity|assumption].
+  intros dn st vs r. destruct (variants_count_fixed dn st vs) as (H1 & H2 & ok & H3). fold r in H1, H2, H3.
+  destruct (variants_loop_prefix _ _ _ _ _ H3) as (F & T & N).
+  split; [assumption|]. split; [assumption|]. split; [assumption|]. split; [|split].
+  - intro Hall. destruct ok.
+    + rewrite H1. apply T. reflexivity.
+    + destruct (N eq_refl) as (v & Hn & Hv). exfalso. apply (Hall v); [|assumption].
+      eapply nth_error_In. eassumption.
+  - intro Hlt. destruct ok; [rewrite (T eq_refl) in Hlt; lia|]. apply N. reflexivity.
   - intros arr i vals Hb. split; [apply set_range_length; assumption|].
     split; [apply set_range_inside; assumption|]. intros k d Hk. apply set_range_outside; assumption.
 Qed.
